@@ -96,6 +96,8 @@ def eval_probed(case):
         if name in RSA_TARGETS:
             for n in RSA_TARGETS:
                 hostkeys[n] = {'t': 'rsa', 'bits': RSA_TARGETS[name]}       # one RSA key per server, whatever names it goes by
+        if case.get('target_blob'):
+            hostkeys[name] = case['target_blob']
         spec = {'banner': case['banner'], 'kex': kex, 'key': keys, 'hostkeys': hostkeys, 'moduli': [], 'moduli_by_alg': mba, 'gex_style': case.get('style', 'openssh')}
         if cat == 'kex' and case.get('other_style'):
             spec['gex_style_by_alg'] = {(GEX1 if name == GEX256 else GEX256): case['other_style']}
@@ -108,6 +110,17 @@ def eval_probed(case):
                 continue
             finds = report.JsonReport(json.loads(r.out)).findings() if view == 'json' else report.TextReport(r.out).findings()
             seen[(variant, view)] = got_notes(finds, cat, name)
+    if case.get('expect_extra') is not None:
+        # ... and what the measurement adds to the table's notes is known as well (severity by severity)
+        want = ref_notes(gens.db(), cat, name)
+        for sev, texts in case['expect_extra'].items():
+            for t in texts:
+                want[sev][t] += 1
+        for (variant, view), got in seen.items():
+            if got != want:
+                which = [sev for sev in ('fail', 'warn', 'info') if got[sev] != want[sev]]
+                fails.append(['notes-of-a-measured-key-differ-from-table-plus-measurement-%s' % view, '%s %s (%s): shown %r, table + measurement says %r (differs in %s)' % (cat, name, variant, {k: dict(v) for k, v in got.items()}, {k: dict(v) for k, v in want.items()}, '+'.join(which))])
+                break
     for view in ('text', 'json'):
         a, b = seen.get(('alone', view)), seen.get(('beside', view))
         if a is not None and b is not None and a != b:
@@ -241,6 +254,12 @@ def strat_scan():
             cat, name = 'kex', gss
         elif kind == 'unknown-gss':
             cat, name = 'kex', ugss        # looks like a GSS key exchange but matches no family of the table
+        elif kind == 'unknown-terrapin-shape':
+            # a name the table does not know, of a shape the Terrapin rule speaks about, in a context where the rule bites
+            shapes = [('enc', 'chacha20-poly1305@example.com'), ('enc', 'kuznyechik-cbc'), ('mac', 'hmac-foo-etm@openssh.com'), ('enc', 'foo256-cbc'), ('mac', 'umac-256-etm@openssh.com'), ('enc', 'chacha20-poly1305-v2@openssh.com')]
+            cat, name = shapes[idx % len(shapes)]
+            ne = ne + ['aes128-cbc']
+            nm = nm + ['hmac-sha2-256-etm@openssh.com']
         elif kind == 'unknown':
             name = unk
         else:
@@ -259,7 +278,7 @@ def strat_scan():
         return case
     nl = lambda c: st.lists(st.sampled_from(gens.db_names(c)), min_size=0, max_size=5, unique=True)
     return st.tuples(st.sampled_from(CATS), st.integers(0, 10000), st.sampled_from(['server', 'server', 'client']), st.integers(0, 5), nl('kex'), nl('key'), nl('enc'), nl('mac'),
-                     st.sampled_from(['db'] * 6 + ['gss', 'gss', 'unknown', 'unknown-gss']), gens.gss_name(), gens.unknown_name(20).filter(lambda s: not s.startswith('gss-')), gens.unknown_gss_name()).map(build)
+                     st.sampled_from(['db'] * 6 + ['gss', 'gss', 'unknown', 'unknown-gss', 'unknown-terrapin-shape']), gens.gss_name(), gens.unknown_name(20).filter(lambda s: not s.startswith('gss-')), gens.unknown_gss_name()).map(build)
 
 
 def valid_case(case):
@@ -315,6 +334,12 @@ def run(ctx):
     if ctx.quick:
         rng.shuffle(probed)
         probed = probed[:600]
+    # certificate targets with a CA of every rating class: the size notes land in the severity they belong to, once
+    W2K, ECN = '2048-bit modulus only provides 112-bits of symmetric strength', 'CA key uses elliptic curves that are suspected as being backdoored by the U.S. National Security Agency'
+    for cert, inner, hb in (('ssh-ed25519-cert-v01@openssh.com', 'ssh-ed25519-cert-v01@openssh.com', 0), ('rsa-sha2-256-cert-v01@openssh.com', 'ssh-rsa-cert-v01@openssh.com', 4096), ('rsa-sha2-512-cert-v01@openssh.com', 'ssh-rsa-cert-v01@openssh.com', 3072), ('ssh-rsa-cert-v01@openssh.com', 'ssh-rsa-cert-v01@openssh.com', 4096)):
+        for ca, extra in (({'t': 'rsa', 'bits': 4096}, {}), ({'t': 'rsa', 'bits': 2048}, {'warn': [W2K]}), ({'t': 'rsa', 'bits': 1024}, {'fail': ['using small 1024-bit CA key modulus']}), ({'t': 'ed25519'}, {}), ({'t': 'ecdsa', 'curve': 'nistp256'}, {'fail': [ECN]})):
+            for nbs in ([], ['ssh-rsa'], ['rsa-sha2-512', 'ssh-ed25519']):
+                probed.append({'kind': 'probed', 'cat': 'key', 'name': cert, 'before': nbs[:1], 'after': nbs[1:], 'banner': 'SSH-2.0-OpenSSH_8.0', 'target_blob': {'t': 'cert', 'kind': inner, 'bits': hb, 'ca': ca}, 'expect_extra': extra})
     ctx.map(probed)
     ctx.hyp('strat_scan', 8000 if ctx.quick else 100000, label=1)
     ctx.exhaustive = True
